@@ -25,7 +25,8 @@ type Graph struct {
 type GCue struct {
 	Style  string   `json:"style"`
 	Region string   `json:"region"`
-	Runs   []string `json:"runs"` // style id per run ("" none)
+	Runs   []string `json:"runs"`  // style id per run ("" none)
+	Split  bool     `json:"split"` // every run on a line of its own (else all runs on one line)
 }
 
 func (g Graph) Build() *astisub.Subtitles {
@@ -56,9 +57,13 @@ func (g Graph) Build() *astisub.Subtitles {
 			if r != "" {
 				li.Style = s.Styles[r]
 			}
+			if c.Split && j > 0 {
+				it.Lines = append(it.Lines, ln)
+				ln = astisub.Line{VoiceName: fmt.Sprintf("v%d-%d", i, j)}
+			}
 			ln.Items = append(ln.Items, li)
 		}
-		it.Lines = []astisub.Line{ln}
+		it.Lines = append(it.Lines, ln)
 		s.Items = append(s.Items, it)
 	}
 	return s
@@ -102,8 +107,13 @@ func checkOptimize(g Graph) (string, string, uint64) {
 	s := g.Build()
 	before := itemsSnap(s)
 	stPtr := map[string]*astisub.Style{}
+	defSnap := map[string]string{} // content of every definition: Optimize deletes definitions, it never edits them
 	for k, v := range s.Styles {
 		stPtr[k] = v
+		defSnap["s:"+k] = fmt.Sprintf("%s %p %p", v.ID, v.Style, v.InlineStyle)
+	}
+	for k, v := range s.Regions {
+		defSnap["r:"+k] = fmt.Sprintf("%s %p %p", v.ID, v.Style, v.InlineStyle)
 	}
 	rgPtr := map[string]*astisub.Region{}
 	for k, v := range s.Regions {
@@ -171,6 +181,9 @@ func checkOptimize(g Graph) (string, string, uint64) {
 		if stPtr[k] != v || v.ID != k {
 			return "optimize.definition-replaced", desc + ": style object replaced", 0
 		}
+		if defSnap["s:"+k] != fmt.Sprintf("%s %p %p", v.ID, v.Style, v.InlineStyle) {
+			return "optimize.definition-edited", desc + ": kept style " + k + " was modified", 0
+		}
 		if v.Style != nil && s.Styles[v.Style.ID] != v.Style {
 			return "optimize.dangling", desc + ": parent of style " + k + " no longer resolves", 0
 		}
@@ -178,6 +191,9 @@ func checkOptimize(g Graph) (string, string, uint64) {
 	for k, v := range s.Regions {
 		if rgPtr[k] != v {
 			return "optimize.definition-replaced", desc + ": region object replaced", 0
+		}
+		if defSnap["r:"+k] != fmt.Sprintf("%s %p %p", v.ID, v.Style, v.InlineStyle) {
+			return "optimize.definition-edited", desc + ": kept region " + k + " was modified", 0
 		}
 		if v.Style != nil && s.Styles[v.Style.ID] != v.Style {
 			return "optimize.dangling", desc + ": style of region " + k + " no longer resolves", 0
@@ -333,10 +349,10 @@ func c13Run(c *core.Ctx) {
 	for _, st := range sopt {
 		for _, rg := range ropt {
 			for _, r1 := range sopt {
-				cueShapes = append(cueShapes, GCue{st, rg, []string{r1}})
+				cueShapes = append(cueShapes, GCue{st, rg, []string{r1}, false})
 				if c.Tier == core.Thorough {
 					for _, r2 := range sopt {
-						cueShapes = append(cueShapes, GCue{st, rg, []string{r1, r2}})
+						cueShapes = append(cueShapes, GCue{st, rg, []string{r1, r2}, false}, GCue{st, rg, []string{r1, r2}, true})
 					}
 				}
 			}
@@ -350,7 +366,7 @@ func c13Run(c *core.Ctx) {
 	twoRun := []GCue{}
 	for _, r1 := range sopt {
 		for _, r2 := range sopt {
-			twoRun = append(twoRun, GCue{"", "", []string{r1, r2}})
+			twoRun = append(twoRun, GCue{"", "", []string{r1, r2}, false}, GCue{"", "", []string{r1, r2}, true})
 		}
 	}
 	for _, a := range twoRun {
